@@ -9,7 +9,8 @@
 // m<j> k modulo j; style (how the SIGN is delivered - the package documents <0 / =0 / >0 only):
 // none -1/0/1, d the difference, t three times the difference, v the difference times a factor
 // 1..5 that depends on the payloads (so two calls on equivalent keys return different numbers),
-// x the sign times 2^40, k -1/0/1 delivered through stree.KV.Compare.
+// x the sign times 2^40, e math.MinInt64 / 0 / math.MaxInt64, k -1/0/1 delivered through
+// stree.KV.Compare.  B lines (big trees, macro operations): see scale.go.
 //
 // ops, ';'-separated, trees are numbered in order of creation (New and Clone):
 //
@@ -116,7 +117,7 @@ func parseCmp(s string) (order byte, j int, style byte, ok bool) {
 	}
 	switch rest {
 	case "":
-	case "d", "t", "v", "x", "k":
+	case "d", "t", "v", "x", "k", "e":
 		style = rest[0]
 	default:
 		return
@@ -161,6 +162,16 @@ func cmpFor(s string) func(a, b E) int {
 		return func(a, b E) int { return (pos(a) - pos(b)) * (1 + (abs(a.P)+abs(b.P))%5) }
 	case 'x':
 		return func(a, b E) int { return sign(pos(a)-pos(b)) << 40 }
+	case 'e': // the extreme values of the result type
+		return func(a, b E) int {
+			switch d := pos(a) - pos(b); {
+			case d < 0:
+				return math.MinInt64
+			case d > 0:
+				return math.MaxInt64
+			}
+			return 0
+		}
 	case 'k':
 		kv := stree.KV[int, E]{}.Compare(gocmp.Compare[int])
 		return func(a, b E) int { return kv(stree.KV[int, E]{Key: pos(a), Value: a}, stree.KV[int, E]{Key: pos(b), Value: b}) }
@@ -412,6 +423,8 @@ func exec(in string) string {
 	switch {
 	case len(f) == 3 && f[0] == "H":
 		return execHistory(f[1], f[2])
+	case len(f) == 3 && f[0] == "B":
+		return execBig(f[1], f[2])
 	case len(f) == 4 && f[0] == "L":
 		β, e1 := strconv.Atoi(f[1])
 		lo, e2 := strconv.Atoi(f[2])
@@ -714,7 +727,7 @@ func pickBeta(r *tr.Rand) int {
 	return tr.Pick(r, betas)
 }
 
-var styles = []string{"d", "t", "v", "x", "k"}
+var styles = []string{"d", "t", "v", "x", "k", "e"}
 
 // pickStyle: half of the histories run under a comparator that delivers the sign some other way
 // than -1/0/1.
@@ -1038,7 +1051,7 @@ func genClone(g *tr.G, n int) {
 func genSign(g *tr.G, n int) {
 	r := g.R
 	order := tr.Pick(r, []string{"n", "n", "r", "m" + strconv.Itoa(tr.Pick(r, []int{64, 101, 1000}))})
-	h := newHist(g, order+tr.Pick(r, []string{"d", "t", "v", "x"}), n <= 14)
+	h := newHist(g, order+tr.Pick(r, []string{"d", "t", "v", "x", "e"}), n <= 14)
 	β := pickBeta(r)
 	space := tr.Pick(r, []int{2, 3, 7, 10})
 	off := r.Range(-n*space/2, 3)
@@ -1150,7 +1163,7 @@ func genLimits(g *tr.G) {
 }
 
 func main() {
-	tr.Main("C01: whole histories of stree.Tree over (key,payload) elements compared by key. Comparators: natural, reversed and modulo-j orders, each delivering the sign as -1/0/1, as the difference, three times the difference, a payload-dependent multiple of the difference, sign times 2^40, or through stree.KV.Compare (half of all histories use a non-unit style). Generators: small random histories over 3..12 keys with New/Add/Replace/Remove/Clear/Clone and full Inorder+shape dumps and Get/InorderAfter/stopped-Inorder probes after every mutation; every insertion order of 4..5 (thorough 6..7) keys followed by every single removal on a fresh clone and lookups of all keys; sign-only probes (keys spaced so that no comparison returns -1 or 1: Get/Add/Replace/Remove/InorderAfter on present keys, keys between two present ones and keys beyond both ends); sorted, reverse, zig-zag, inside-out, random and duplicate-heavy insertion patterns up to 160 (quick) / 1500 (thorough) keys at beta in {0,1,250,500,999,1000} plus random beta, each optionally drained ascending/descending/randomly/three-quarters and refilled; bulk New with unsorted duplicated keys (the kept representatives are recorded as oracle input); two-child removals found on the real tree followed by lookups of the promoted successor; Clone then mutate both copies; New with beta outside 0..1000 (down to MinInt64 and up to MaxInt64, with and without keys) must panic with exactly the documented value. After every mutation: result, Len, IsEmpty, Min, Max, t.max, node count and hashes of the full Inorder output and of the whole shape read through Root/Left/Right/Key, for every live tree. Plus sweeps of the float depth limit VerifLimit(beta,n). Counters delete-rebuild*/goat-rebuild are read from the implementation's own outputs. A case is non-trivial when it removed a present key, replaced an existing one, bulk-loaded duplicates, cloned, or has more than 20 ops.",
+	tr.Main("C01: whole histories of stree.Tree over (key,payload) elements compared by key. Comparators: natural, reversed and modulo-j orders, each delivering the sign as -1/0/1, as the difference, three times the difference, a payload-dependent multiple of the difference, sign times 2^40, MinInt64/MaxInt64, or through stree.KV.Compare (half of all histories use a non-unit style). Generators: small random histories over 3..12 keys with New/Add/Replace/Remove/Clear/Clone and full Inorder+shape dumps and Get/InorderAfter/stopped-Inorder probes after every mutation; every insertion order of 4..5 (thorough 6..7) keys followed by every single removal on a fresh clone and lookups of all keys; sign-only probes (keys spaced so that no comparison returns -1 or 1: Get/Add/Replace/Remove/InorderAfter on present keys, keys between two present ones and keys beyond both ends); sorted, reverse, zig-zag, inside-out, random and duplicate-heavy insertion patterns up to 160 (quick) / 1500 (thorough) keys at beta in {0,1,250,500,999,1000} plus random beta, each optionally drained ascending/descending/randomly/three-quarters and refilled; bulk New with unsorted duplicated keys (the kept representatives are recorded as oracle input); two-child removals found on the real tree followed by lookups of the promoted successor; Clone then mutate both copies; New with beta outside 0..1000 (down to MinInt64 and up to MaxInt64, with and without keys) must panic with exactly the documented value. After every mutation: result, Len, IsEmpty, Min, Max, t.max, node count and hashes of the full Inorder output and of the whole shape read through Root/Left/Right/Key, for every live tree. Plus sweeps of the float depth limit VerifLimit(beta,n). Scale stream (B lines, macro operations over arithmetic key sequences): trees of 2^k-1, 2^k, 2^k+1 keys for k = 3..12 and a few random sizes up to 8192, built by Add or Replace in ascending/descending/outside-in/inside-out/random order or by New from sorted/unsorted/duplicated keys (oracle recorded per class), at beta in {0,1,50,155,250,500,800,880,950,999,1000} in rotation (vines above 1025 keys only a few per run in the quick tier); grow - probe - drain to 1/2..1/16 by Remove - every observer on every remaining key - regrow past the peak - drain to empty by Remove - regrow; Clone of a big tree then divergent edits on both sides; removals of two-child nodes whose successor lies deep (found on the real tree); equivalences coarser than identity (keys modulo n) with payloads; comparators delivering the sign as -1/0/1, differences, multiples, payload-dependent multiples, 2^40 and MinInt64/MaxInt64. After EVERY call of a B line a digest takes in the result, Len, IsEmpty, Min, Max and Get of the key just used (and t.max); about nine checkpoints per macro list, for every live tree, Len, IsEmpty, Min, Max, t.max, node count, a digest of the whole Inorder output and a digest of the whole shape read through one cursor. Counters delete-rebuild*/goat-rebuild are read from the implementation's own outputs. A case is non-trivial when it removed a present key, replaced an existing one, bulk-loaded duplicates, cloned, or has more than 20 ops.",
 		exec, func(g *tr.G) {
 			r := g.R
 			// invalid β, with and without keys: the documented panic and nothing else
@@ -1210,5 +1223,6 @@ func main() {
 				genClone(g, r.Range(1, g.Scale(24, 60)))
 			}
 			genLimits(g)
+			genScale(g)
 		})
 }
